@@ -110,6 +110,9 @@ type c38State struct {
 
 func runC38(c *Ctx, a c38Anchors) {
 	fl := func(id string) int { return a.floors[id] }
+	if !c.fixtureMode {
+		c38InsertIfAbsent(c, "sql", "LockSubsystem", "locks")
+	}
 	c.Rule("C38-L1", "the lock slot is never dereferenced; its *unsafe.Pointer view is used only as first argument of atomic.LoadPointer / CompareAndSwapPointer", fl("C38-L1"))
 	c.Rule("C38-L2", "every CAS: `if CAS(dest, old, new)` in a for loop, old = LoadPointer(dest) of the same iteration, new freshly built, failure returns to the load, success leaves the loop", fl("C38-L2"))
 	c.Rule("C38-L3", "on every path from the load to a CAS an ownership test succeeded (Owner == 0 or Owner == session id)", fl("C38-L3"))
